@@ -41,6 +41,7 @@ Inductive rstmt :=
 | RLetHash (x : string)                             (* let x = <hasher>.hash_one(<the string>) *)
 | RIf (c : bexpr) (t e : rstmt)
 | RAssertP (c : bexpr)                              (* assert!(c) *)
+| RUnreachable                                      (* unreachable!(..) / panic!(..) *)
 | RReturn (r : rrexpr)
 | RLetMatchEntry (x : string) (h : expr) (eo : string) (occ : rstmt) (occv : expr)
                  (ev : string) (vac : rstmt) (vacv : expr)
@@ -162,6 +163,7 @@ Section Interp.
         | Some (true, q) => RNormal (mkRs r nums refs vac (ok /\ q))
         | Some (false, q) => RPanicked r (ok /\ q)
         | None => RStuck end
+    | RUnreachable => RPanicked r ok
     | RReturn x => eval_rr cx r addr s ok x
     | RLetMatchEntry x e eo occ occv ev vb vacv =>
         match eval cx e, vac with
